@@ -4,6 +4,6 @@ package timed
 
 import "time"
 
-func verifPollHook(time.Time) {}
+func verifPollHook(any, time.Time) {}
 
 func verifAddHook(time.Time) {}
